@@ -271,7 +271,7 @@ def random_connector_trace(job):
     fam = [rng.choice([4, 6]) for _ in range(n)]
     if rng.random() < 0.15:
         fam = [fam[0]] * n
-    modes = ["async", "async", "async", "sync"] + (["sockerr", "streamerr"] if create_modes else [])
+    modes = ["async", "async", "async", "sync"] + (["sockerr", "streamerr", "binderr"] if create_modes else [])
     cfg = {"fam": fam, "mode": [rng.choice(modes) for _ in range(n)], "ct": rng.choice([0, 0, 1, 2, 2])}
     real = nd.ConnectorReal(cfg)
     ev = []
@@ -306,7 +306,7 @@ def random_connector_trace(job):
 
 
 def conn_trace_sig(t, bad, l):
-    return {"create_failure": any(m in ("sockerr", "streamerr") for m in t["cfg"]["mode"]),
+    return {"create_failure": any(m in ("sockerr", "streamerr", "binderr") for m in t["cfg"]["mode"]),
             "modes": sorted(set(t["cfg"]["mode"]))}
 
 
